@@ -464,34 +464,17 @@ def run(repo, rep):
         rep.check(all(any(k.arg == 'key' for k in c.keywords) for c in keyed) and bool(keyed), 'C07.e', 'dict-sort:total-key', m0.relpath,
                   'dict keys sorted with a total key', 'dict keys are sorted without an always-sortable key: incomparable keys raise TypeError')
     else:
-        lt = srt.methods.get('__lt__')
-        ok = False
-        if lt is not None:
-            par = enclosing_map(lt.node)
-            cmps = [c for c in ast.walk(lt.node) if isinstance(c, ast.Compare) and 'self.value' in src(c) and 'other.value' in src(c)
-                    and isinstance(c.ops[0], (ast.Lt, ast.Gt, ast.LtE, ast.GtE))]
-            ok = bool(cmps) and all(any(handler_catches(h, 'TypeError') for t in inside_try_body(c, par) for h in t.handlers) for c in cmps)
-        rep.check(ok, 'C07.e', '_AlwaysSortable.__lt__:comparison-guarded', srt.where,
-                  'ordering of user keys is attempted under except TypeError',
-                  '_AlwaysSortable.__lt__ compares user keys outside try/except TypeError: same-type unorderable keys (complex, '
-                  'mixed tuples) make the dict printer raise and degrade to repr', nontrivial=True)
+        # no pair of keys makes the comparison raise (interpreted on pairs of constants: comparable, incomparable, same-type unorderable)
+        from .common import report_sortkey
+        n += report_sortkey(repo, rep, 'C07.e', lambda label: label.startswith('total-fallback')) - 1
     rep.floor('C07.e', n, 15)
 
     # ---------------------------------------------------------------- C07.f
     n = 0
     m = repo.module('prettyprinter')
-    for fname, table in (('_is_namedtuple', 'namedtuple_clsattrs'), ('_is_cnamedtuple', 'c_namedtuple_identify_by_clsattrs')):
-        f = m.funcs.get(fname)
-        n += 1
-        if f is None:
-            rep.fail('C07.f', fname + ':exists', m.relpath, fname + ' vanished')
-            continue
-        v = f.params[0]
-        txt = src(f.node)
-        ok = ('cls = type(%s)' % v) in txt and ('for attrname in %s' % table) in txt and 'getattr(cls, attrname)' in txt \
-            and 'getattr(%s' % v not in txt
-        rep.check(ok, 'C07.f', fname + ':class-attributes-only', f.where, 'detection reads class attributes from its table only',
-                  '%s no longer detects by getattr(type(value), name) over %s' % (fname, table), nontrivial=True)
+    # named tuples and struct sequences are recognised by the attributes of their *class* (never of the instance: an object with a
+    # __getattr__ answers to every name): the two detectors interpreted on model classes / instances
+    n += _detectors(repo, rep)
     seqp = None
     for r in facts.registry(repo):
         if r.key == 'tuple' and r.fn is not None:
@@ -538,6 +521,58 @@ def _in_default_branch(node, par):
     p = par.get(id(node))
     return isinstance(p, ast.If) and node in p.orelse and 'isinstance' in src(p.test) or \
         (isinstance(p, ast.If) and node in p.orelse and ' is ' in src(p.test))
+
+
+def _detectors(repo, rep):
+    """_is_namedtuple / _is_cnamedtuple interpreted: True exactly for instances whose class carries the identifying attributes (for
+    struct sequences: as integers); attributes present on the instance only do not count; returns the number of scenarios"""
+    from engine.interp import Interp, Const, ObjV, FuncV, Undecided, Raised, PathLimit
+    from engine.loader import ClassInfo
+    m = repo.module('prettyprinter')
+    nodes = ast.parse('class ModelClass:\n    pass\nclass ModelInstance:\n    pass\n').body
+    cinfo, iinfo = ClassInfo(None, nodes[0]), ClassInfo(None, nodes[1])
+    NT = ('__slots__', '_make', '_replace', '_asdict')
+    CNT = ('n_fields', 'n_sequence_fields', 'n_unnamed_fields')
+
+    def make(cls_attrs, inst_attrs):
+        c = ObjV(cinfo)
+        c.attrs.update({'__name__': Const('M'), '__qualname__': Const('M'), '__module__': Const('model')})
+        c.attrs.update(cls_attrs)
+        o = ObjV(iinfo)
+        o.attrs['__class__'] = c
+        o.attrs.update(inst_attrs)
+        return o
+    fn_ = lambda: Const('<function>')   # noqa: E731
+    scenarios = [
+        ('_is_namedtuple', 'class has every attribute', make({a: fn_() for a in NT}, {}), True),
+        ('_is_namedtuple', 'class lacks _asdict', make({a: fn_() for a in NT[:-1]}, {}), False),
+        ('_is_namedtuple', 'attributes on the instance only', make({}, {a: fn_() for a in NT}), False),
+        ('_is_namedtuple', 'plain class', make({}, {}), False),
+        ('_is_cnamedtuple', 'class has the three counters', make({a: Const(3) for a in CNT}, {}), True),
+        ('_is_cnamedtuple', 'a counter is not an integer', make({'n_fields': Const(3), 'n_sequence_fields': Const('3'), 'n_unnamed_fields': Const(0)}, {}), False),
+        ('_is_cnamedtuple', 'class lacks n_unnamed_fields', make({a: Const(3) for a in CNT[:-1]}, {}), False),
+        ('_is_cnamedtuple', 'counters on the instance only', make({}, {a: Const(3) for a in CNT}), False),
+    ]
+    n = 0
+    for fname, label, value, want in scenarios:
+        f = m.funcs.get(fname)
+        n += 1
+        if f is None:
+            rep.fail('C07.f', fname + ':exists', m.relpath, fname + ' vanished')
+            continue
+        it = Interp(repo, {}, max_paths=4, max_depth=40)
+        it.concrete_context = True
+        try:
+            prs = it.explore(f, [value], {})
+        except (Undecided, PathLimit) as e:
+            rep.undecided('C07.f', '%s[%s]' % (fname, label), f.where, str(e))
+            continue
+        got = prs[0].value.v if len(prs) == 1 and prs[0].raised is None and isinstance(prs[0].value, Const) else \
+            ('raises ' + prs[0].raised.what if len(prs) == 1 and prs[0].raised is not None else '%d paths' % len(prs))
+        rep.check(got is want, 'C07.f', '%s[%s]' % (fname, label), f.where, 'answers %s' % want,
+                  '%s answers %s for a value whose %s (expected %s): detection must look at the attributes of the class only - an object that '
+                  'answers to every attribute name would be taken for a named tuple, or a real one missed' % (fname, got, label, want), nontrivial=True)
+    return n
 
 
 def _nonempty(seq, defs, fs, idx, resolve=None):
